@@ -106,7 +106,8 @@ CLAIMED = {
         "peak, equally many indices and selected peaks, only peaks with elevation >= min_weight; selection <=> weight ok "
         "and squared relaxed error < tolerance^2; exact lattice points are selected with their true indices; the returned "
         "lattice is the weighted least-squares fit of the selected peaks (C06); parallel/zero start vectors and too few "
-        "matches give the invalid match; translation invariance of the indices; operators and source text of both rounds "
+        "matches give the invalid match, and so does an empty first-round selection for EVERY min_match, 0 and negative "
+        "values included (nothing_matched_invalid); translation invariance of the indices; operators and source text of both rounds "
         "pinned; rigid equivariance: for every rational orthogonal map (rotations, reflections) and translation the match "
         "of the moved inputs is the moved match (same selector and indices, lattice mapped), invalid stays invalid. The "
         "robustness window in exact arithmetic: for one round against ANY lattice with vectors 60..120 deg apart a peak "
